@@ -2,8 +2,9 @@
 //
 // Bounded exhaustive enumeration of every pattern made of ≤ K tokens of a covering token alphabet
 // (literals, separators, '?', '*', '**', whole groups incl. nested and slash-carrying ones, escapes,
-// raw '{' ',' '}' '[' for hand-made and malformed groups) against every path of ≤ 4 segments over a small
-// segment alphabet. Oracles:
+// raw '{' ',' '}' '[' for hand-made and malformed groups, multi-byte literals of 2/3/4 bytes bare, escaped and
+// inside group alternatives) against every path of ≤ 4 segments over a small segment alphabet (plus segments
+// carrying the escaped and the multi-byte characters). Oracles:
 //
 //	validity      ParsePathPattern accepts exactly what a reference scanner accepts (≤ 1000 expansions)
 //	counts        NumVariants == number of variants rendered, indices 0..n-1, ≤ 1000, between the number of
@@ -48,11 +49,34 @@ var restTokens = []string{"/a", "/b", "/", "b", "?", "*", "/**", "**",
 // the variant parser treats specially has an escaped token: \* \? \{ \} \\ \[ \] \,
 var moreEscapes = []string{`\[`, `\]`, `\,`}
 
+// multi-byte literals: the package counts lengths in bytes in some places (render buffer, Length(),
+// alreadyRendered) and reads runes in others (scanner, variant parser, '?' = one character), so every literal
+// position must also be filled with text whose byte length differs from its character count. As tokens
+// following any other token they stand before the first group, between groups and after the last group;
+// the two group tokens put them inside alternatives (alternatives of 2 and 4 bytes / 1 and 2 characters;
+// a multi-byte literal in front of a nested group inside an alternative); `\é` is an escaped multi-byte
+// character (the backslash is unnecessary and is dropped in the variant).
+//
+//	é  U+00E9  2 bytes     €  U+20AC  3 bytes     𝄞  U+1D11E  4 bytes (thorough)
+//	⁑  U+2051  3 bytes, the character the variant parser uses internally as its marker for '**' (thorough)
+var uniTokens = []string{"é", "€", `\é`, "{é,€b}", "{é{a,b},€}"}
+var uniTokensThorough = []string{"𝄞", "⁑"}
+
+// the multi-byte tokens that are also used in the longest (5-token) patterns of the thorough tier
+var uniTokensLong = []string{"é", "€", "{é,€b}"}
+
 // tokens that are plain, group-free pattern text (used for the precedence pool and for generalisation)
 var groupFree = map[string]bool{"/a": true, "/b": true, "/": true, "b": true, "?": true, "*": true, "/**": true, "**": true,
-	`\*`: true, `\?`: true, `\{`: true, `\}`: true, `\\`: true, `\[`: true, `\]`: true, `\,`: true}
+	`\*`: true, `\?`: true, `\{`: true, `\}`: true, `\\`: true, `\[`: true, `\]`: true, `\,`: true,
+	"é": true, "€": true, `\é`: true, "𝄞": true, "⁑": true}
 
 var pathSegs = []string{"a", "b", "ab", ""}
+
+// segments with multi-byte characters: every pair of segments of uniSegs (with and without trailing '/'),
+// and the longer ones as single / second segment
+var uniSegs = []string{"a", "b", "", "é", "€", "éa", "éb", "aé", "é€", "€b"}
+var uniRareSegs = []string{"bé", "éé", "€é", "€€", "a€", "b€", "éab", "éba", "éaa", "ébb", "aéb", "é€b", "€bé", "€ba"}
+var uniSegsThorough = []string{"𝄞", "⁑", "a𝄞", "𝄞b", "é𝄞", "𝄞€", "a⁑", "⁑b", "é⁑", "⁑€", "⁑⁑", "𝄞⁑"}
 
 // segments carrying the literal characters that escaped tokens stand for, so that "escaped literal" and
 // "wildcard / group syntax" are told apart by some path
@@ -97,7 +121,7 @@ func allPatterns(maxTokens int, restTokens []string) []pat {
 	return out
 }
 
-func allPaths() []string {
+func allPaths(thorough bool) []string {
 	seen := map[string]bool{}
 	var res []string
 	add := func(segs []string, maxLen int) {
@@ -124,7 +148,12 @@ func allPaths() []string {
 	}
 	add(pathSegs, 4)
 	add(extraSegs, 2)
-	for _, s := range rareSegs {
+	add(uniSegs, 2)
+	rare := append(append([]string{}, rareSegs...), uniRareSegs...)
+	if thorough {
+		rare = append(rare, uniSegsThorough...)
+	}
+	for _, s := range rare {
 		for _, p := range []string{"/" + s, "/" + s + "/", "/a/" + s, "/a/" + s + "/"} {
 			if !seen[p] {
 				seen[p] = true
@@ -958,7 +987,9 @@ func (c *checker) checkPrecedence(path string, vs []patterns.PatternVariant, tri
 // generalisations of a group-free token sequence: one literal → '?' or '*', one '?' → '*'
 func generalisations(tokens []string) []string {
 	var out []string
-	repl := map[string][]string{"/a": {"/?", "/*"}, "/b": {"/?", "/*"}, "b": {"?", "*"}, "?": {"*"}}
+	repl := map[string][]string{"/a": {"/?", "/*"}, "/b": {"/?", "/*"}, "b": {"?", "*"}, "?": {"*"},
+		// one multi-byte character is one character: '?' must cover it, and a literal é/€/𝄞/⁑ must beat '?' and '*'
+		"é": {"?", "*"}, "€": {"?", "*"}, `\é`: {"?", "*"}, "𝄞": {"?", "*"}, "⁑": {"?", "*"}}
 	wild := map[string]bool{"?": true, "*": true, "**": true, "/**": true}
 	for i, t := range tokens {
 		if i > 0 && wild[tokens[i-1]] {
@@ -1069,12 +1100,13 @@ func boundaryFamily() []pat {
 // ------------------------------------------------------------------------------------------------
 
 func TestC37(t *testing.T) {
-	r := eng.Start("C37", "exploration", 90*time.Second, 12*time.Minute)
+	r := eng.Start("C37", "exploration", 150*time.Second, 15*time.Minute)
 	r.Assume("reference scanner/brace expander (~120 lines: escapes, nesting, commas outside groups literal, brackets refused) decides well-formedness and the expected expansions; normal forms of expansions are obtained from the package itself (single-variant patterns)",
 		"specificity law: widening one literal to '?'/'*' or one '?' to '*' must lower precedence (from the doc comment of componentType: literal > '?' > ... > '*')",
-		"token alphabet and path segments {a,b,ab,\"\"} (+ {*,{,a*,{a} up to 2 segments) as covering abstractions; paths with empty inner segments ('//') are included")
+		"token alphabet and path segments {a,b,ab,\"\"} (+ {*,{,a*,{a} up to 2 segments) as covering abstractions; paths with empty inner segments ('//') are not included",
+		"multi-byte text is represented by é (2 bytes), € (3 bytes) and, in the thorough tier, 𝄞 (4 bytes) and ⁑ (the variant parser's internal '**' marker), as literal tokens, inside group alternatives, escaped, and in path segments; patterns and paths are valid UTF-8")
 
-	paths := allPaths()
+	paths := allPaths(r.Thorough())
 	pathIdx := map[string]int{}
 	for i, p := range paths {
 		pathIdx[p] = i
@@ -1145,24 +1177,49 @@ func TestC37(t *testing.T) {
 	maxTokens := r.Pick(4, 5)
 	poolTokens := r.Pick(3, 4)
 	tripleMax := r.Pick(40, 64)
-	toks := restTokens
-	if r.Thorough() {
-		toks = append(append([]string{}, restTokens...), moreEscapes...)
+	toks := append(append([]string{}, restTokens...), uniTokens...)
+	var pats []pat
+	if r.Quick() {
+		pats = allPatterns(maxTokens, toks)
+	} else {
+		// thorough: every pattern of ≤ 5 tokens over the 27-token alphabet (ASCII tokens, all escapes, é, €, {é,€b})
+		// and every pattern of ≤ 4 tokens over the full 31-token alphabet (+ \é, {é{a,b},€}, 𝄞, ⁑)
+		long := append(append(append([]string{}, restTokens...), moreEscapes...), uniTokensLong...)
+		toks = append(append(toks, moreEscapes...), uniTokensThorough...)
+		pats = allPatterns(maxTokens, long)
+		seen := make(map[string]bool, len(pats))
+		for _, p := range pats {
+			seen[p.s] = true
+		}
+		for _, p := range allPatterns(maxTokens-1, toks) {
+			if !seen[p.s] {
+				pats = append(pats, p)
+			}
+		}
+		r.Info("thorough_alphabets", map[string]int{"rest_tokens_up_to_5": len(long), "rest_tokens_up_to_4": len(toks)})
 	}
-	pats := allPatterns(maxTokens, toks)
 	pats = append(pats, boundaryFamily()...)
 
 	// ---- pass A: validity, counts, expansions
 	results := make([]patResult, len(pats))
-	var nValid int64
+	var nValid, nMulti, nMultiGroups int64
+	multiByte := func(s string) bool { return len(s) != len([]rune(s)) }
 	eng.ParallelFor(len(pats), func(i int) {
 		results[i] = c.checkPattern(pats[i])
 		if results[i].valid {
 			atomic.AddInt64(&nValid, 1)
+			if multiByte(pats[i].s) {
+				atomic.AddInt64(&nMulti, 1)
+				if len(results[i].variants) > 1 {
+					atomic.AddInt64(&nMultiGroups, 1)
+				}
+			}
 		}
 	})
 	r.Add("patterns", int64(len(pats)))
 	r.Add("patterns_valid", nValid)
+	r.Add("patterns_valid_with_multibyte_text", nMulti)
+	r.Add("patterns_valid_with_multibyte_text_and_2plus_variants", nMultiGroups)
 	r.Add("patterns_rejected", int64(len(pats))-nValid)
 
 	// ---- pass B: every distinct variant on every path, both matchers
@@ -1188,7 +1245,7 @@ func TestC37(t *testing.T) {
 	r.Add("variant_path_evaluations", vEvals)
 
 	// ---- pass C: pattern matches ⇔ some variant matches
-	var pEvals, pMatched, multi int64
+	var pEvals, pMatched, multi, mbMatched int64
 	eng.ParallelFor(len(pats), func(i int) {
 		if !results[i].valid || len(results[i].variants) > 64 {
 			return // the boundary family (hundreds of variants) is only counted, not matched
@@ -1203,10 +1260,14 @@ func TestC37(t *testing.T) {
 		if len(results[i].variants) > 1 {
 			atomic.AddInt64(&multi, m)
 		}
+		if multiByte(pats[i].s) {
+			atomic.AddInt64(&mbMatched, m)
+		}
 	})
 	r.Add("pattern_path_evaluations", pEvals)
 	r.Add("pattern_path_matches", pMatched)
 	r.Add("pattern_path_matches_multi_variant", multi)
+	r.Add("pattern_path_matches_multibyte_pattern", mbMatched)
 
 	// ---- pass D: precedence on V(path) for the pool (variants of patterns with ≤ poolTokens tokens)
 	var pool []*variantInfo
@@ -1282,8 +1343,9 @@ func TestC37(t *testing.T) {
 	r.Info("bounds", map[string]int{"max_tokens": maxTokens, "first_tokens": len(firstTokens), "rest_tokens": len(toks), "paths": len(paths),
 		"precedence_pool_max_tokens": poolTokens, "triple_max_set": tripleMax, "boundary_family": len(boundaryFamily())})
 	r.Sample(vCase{Kind: "pattern", Pattern: "/a{,/}/**", Path: "/a/b"})
+	r.Sample(vCase{Kind: "pattern", Pattern: "/é{a,b}{a,b}", Path: "/éba"})
 	r.Sample(vCase{Kind: "pattern", Pattern: pats[len(pats)/2].s, Path: paths[len(paths)/2]})
 	r.Sample(vCase{Kind: "precedence", Path: "/a/b", Variants: []string{"/a/b", "/a/?", "/a/*", "/**/b", "/**"}})
 	r.Sample(vCase{Kind: "generalise", Pattern: "/a/b", Other: "/a/*", Path: "/a/b"})
-	r.Finish("every pattern of ≤ max_tokens tokens (first token from 4, the others from 21 quick / 24 thorough, incl. an escaped form of every metacharacter) plus a variant-count boundary family: validity, counts and expansion laws; every distinct rendered variant × every path: doublestar verdict vs the variant's regex; every valid pattern × every path: pattern matches ⇔ some variant matches; for every path the set of all pooled variants (patterns of ≤ precedence_pool_max_tokens tokens) matching it: all ordered pairs through Compare, list/reverse/rotations/pairs/triples through HighestPrecedencePattern; every one-step generalisation of every pooled group-free pattern on every path it matches. distinct_nontrivial = (pattern,path) pairs that match (the equivalence is checked on all pairs; matching ones are those where a variant had to be found) + paths with ≥ 2 competing variants + generalisation comparisons actually made")
+	r.Finish("every pattern of ≤ max_tokens tokens (first token from 4, the others from 26 in the quick tier; thorough: ≤ 5 tokens over 27 and ≤ 4 tokens over 31; incl. an escaped form of every metacharacter and multi-byte literals é € (𝄞 ⁑) bare, escaped and inside group alternatives; paths include segments with those characters) plus a variant-count boundary family: validity, counts and expansion laws; every distinct rendered variant × every path: doublestar verdict vs the variant's regex; every valid pattern × every path: pattern matches ⇔ some variant matches; for every path the set of all pooled variants (patterns of ≤ precedence_pool_max_tokens tokens) matching it: all ordered pairs through Compare, list/reverse/rotations/pairs/triples through HighestPrecedencePattern; every one-step generalisation of every pooled group-free pattern on every path it matches. distinct_nontrivial = (pattern,path) pairs that match (the equivalence is checked on all pairs; matching ones are those where a variant had to be found) + paths with ≥ 2 competing variants + generalisation comparisons actually made")
 }
